@@ -91,6 +91,15 @@ for o in out:
     print(f"{status} {o['name']:45s} compiles={o.get('compiles')} expect={','.join(o['expect']) or '-':12s} VIOLATION={','.join(viol) or '-'} inconclusive={','.join(inc) or '-'}")
     summary.append(dict(name=o['name'], kind=o['kind'], expect=o['expect'], compiles=o.get('compiles'), violation=viol, inconclusive=inc, ok=ok, known_miss=known_miss,
                         detail={p: r['first'] for p, r in o['results'].items() if r['verdict'] != 'silent'}))
+if only and '--merge' in args and '--props' not in args and '--round2' not in args:
+    # add / replace the items just evaluated in the stored result of the last full run
+    rp = os.path.join(V, 'selftest', 'RESULTS.json')
+    old_ = json.load(open(rp))
+    byname = {i['name']: i for i in old_['items']}
+    for i in summary: byname[i['name']] = i
+    order = [i['name'] for i in items] if False else None
+    json.dump(dict(claimed=claimed, items=sorted(byname.values(), key=lambda i: ({'seeded': 0, 'mutant': 1, 'benign': 2, 'refactor': 3, 'revert': 4}.get(i['kind'], 9), i['name']))), open(rp, 'w'), indent=1)
+    print(f'merged {len(summary)} item(s) into RESULTS.json ({len(byname)} items)')
 if not only and '--props' not in args:
     json.dump(dict(claimed=claimed, items=summary), open(os.path.join(V, 'selftest', 'RESULTS_round2.json' if '--round2' in args else 'RESULTS.json'), 'w'), indent=1)
 print(f'{len(out)} items, {bad} not as expected')
